@@ -198,6 +198,36 @@ def stateful_model(seed=0, second_fc=False):
   return g.bytes(), {"x0": [1, 4]}
 
 
+def bool_mask_model(seed=0, with_const_mask=False):
+  """x -> FULLY_CONNECTED -> h;  GREATER(h, c) -> mask (BOOL);  CAST(mask) -> f;  MUL(h, f) -> y: a model whose main subgraph holds
+  a BOOL runtime tensor (and, optionally, a BOOL constant combined by LOGICAL_AND). Returns (bytes, dict(input name -> shape))."""
+  rng = np.random.default_rng(seed)
+  g = G(b"bool-mask")
+  sg = g.subgraph()
+  r = lambda *sh: (rng.integers(-8, 9, size=sh) / 8.0).astype(np.float32)
+  x = g.tensor(sg, "x_in", [1, 4])
+  w = g.tensor(sg, "fc_w", [3, 4], r(3, 4))
+  b = g.tensor(sg, "fc_b", [3], r(3))
+  h = g.tensor(sg, "fc_out", [1, 3])
+  c = g.tensor(sg, "threshold", [1, 3], r(1, 3))
+  m = g.tensor(sg, "greater_mask", [1, 3], ttype=TT.BOOL)
+  g.op(sg, B.FULLY_CONNECTED, [x, w, b], [h], opt(S.FullyConnectedOptionsT, keepNumDims=False), BO.FullyConnectedOptions)
+  g.op(sg, B.GREATER, [h, c], [m], S.GreaterOptionsT(), BO.GreaterOptions)
+  if with_const_mask:
+    km = g.tensor(sg, "keep_mask", [1, 3], np.array([[True, False, True]]), ttype=TT.BOOL)
+    m2 = g.tensor(sg, "and_mask", [1, 3], ttype=TT.BOOL)
+    g.op(sg, B.LOGICAL_AND, [m, km], [m2], S.LogicalAndOptionsT(), BO.LogicalAndOptions)
+    m = m2
+  f = g.tensor(sg, "mask_f32", [1, 3])
+  g.op(sg, B.CAST, [m], [f], opt(S.CastOptionsT, inDataType=TT.BOOL, outDataType=TT.FLOAT32), BO.CastOptions)
+  y = g.tensor(sg, "masked_out", [1, 3])
+  g.op(sg, B.MUL, [h, f], [y], S.MulOptionsT(), BO.MulOptions)
+  sg.inputs = [x]
+  sg.outputs = [y]
+  g.signature("serving_default", 0, [("x0", x)], [("o0", y)])
+  return g.bytes(), {"x0": [1, 4]}
+
+
 STATEFUL_CHAIN = {"ops": [{"kind": "FC", "ins": [0, 1, 2], "outs": [3]}, {"kind": "UNK", "ins": [3, 4, 5, 6, 7], "outs": [8]},
                           {"kind": "FC", "ins": [8, 9, 10], "outs": [11]}],
                   "trole": ["act", "w", "b", "act", "c", "c", "c", "var", "act", "w", "b", "act"], "gins": [0], "gouts": [11]}
